@@ -67,6 +67,10 @@ class CaseTimeout(BaseException):
     pass
 
 
+class StopSubcheck(BaseException):
+    pass
+
+
 CASE_TIMEOUT_S = int(os.environ.get("VERIF_CASE_TIMEOUT_S", "300"))
 
 
@@ -118,6 +122,10 @@ def run_subcheck(sub, ctx, known, tier, checkpoint=None):
                 return
             if v.signature in muted:
                 rec.muted_hits[v.signature] = rec.muted_hits.get(v.signature, 0) + 1
+                if rec.muted_hits[v.signature] >= 40:
+                    # the verdict for this sub-check is settled; do not spend the budget on
+                    # re-finding the same violation
+                    raise StopSubcheck() from None
                 return
             raise
 
@@ -127,6 +135,8 @@ def run_subcheck(sub, ctx, known, tier, checkpoint=None):
         for case in sub.cases(ctx):
             try:
                 guarded(case)
+            except StopSubcheck:
+                break
             except Violation as v:
                 muted.add(v.signature)
                 failures.append(_failure(sub, v, case))
@@ -161,6 +171,8 @@ def run_subcheck(sub, ctx, known, tier, checkpoint=None):
 
         try:
             test()
+            break
+        except StopSubcheck:
             break
         except Violation as v:
             case = state["last"]
